@@ -144,6 +144,22 @@ def boundary_case(rng, kind, n, share):
     return {"class": kind, "n": len(xs), "pids": pids, "types": [1] + [3] * (len(xs) - 1), "xyz": [[x, 0.0, 0.0] for x in xs], "r": rs}
 
 
+def uniform_radius_case(rng, kind, n):
+    """collinear tree with ONE radius along the line and any admissible spacings (touching at one radius, overlapping, tangent, apart)"""
+    t = collinear_case(rng, kind, n)
+    r0 = t["r"][0]
+    steps = []
+    for _ in range(len(t["pids"])):
+        mode = rng.choice(["min", "overlap", "tangent", "apart"])
+        steps.append({"min": r0, "overlap": r0 + rng.randint(1, 7) / 8 * r0, "tangent": 2 * r0, "apart": 2 * r0 + rng.randint(1, 16) / 8}[mode])
+    xs = [0.0] * len(t["pids"])
+    for i, p in enumerate(t["pids"]):
+        if p >= 0:
+            sign = -1.0 if (t["xyz"][i][0] < 0) else 1.0
+            xs[i] = xs[p] + sign * steps[i]
+    return dict(t, xyz=[[x, 0.0, 0.0] for x in xs], r=[r0] * len(xs))
+
+
 def soma_layout_case(rng, n, k, shape):
     """a general tree whose root carries k extra soma-typed points around it (the multi-point soma conventions of SWC files: the
     three-point soma = centre and two points one soma radius away on opposite sides, all with the soma radius; one- and
@@ -371,6 +387,18 @@ class TreeVol(Suite):
                     t = collinear_case(rng, kind, n)
                     t = dict(t, xyz=[[c * unit for c in q] for q in t["xyz"]], r=[v * unit for v in t["r"]])
                     out.append({"class": "small-units/" + kind, "tree": t, "levels": [1, 2, 3, 4], "collinear": True, "unit": unit})
+        # files whose length unit is not the micrometre (SI metres, millimetres of a sub-micron reconstruction: units 10^-6 … 10^-9, so that
+        # radii and compartments are far below every absolute tolerance): one radius along the whole line, so that every sphere / frustum
+        # overlap is the exact hemisphere / cap (r2 - r1 = 0 lies outside the code's band -eps <= r2 - r1 < 0, DESIGN §8); any admissible
+        # spacing; every analytic level
+        for kind, n in [("chain", 2), ("chain", rng.choice([3, 4])), ("chain", rng.choice([5, 6])), ("arms", 3), ("arms", rng.choice([4, 5, 6]))] + \
+                ([("chain", 12), ("arms", 9), ("chain", 3), ("arms", 5)] if big else []):
+            t = uniform_radius_case(rng, kind, n)
+            e = [6, 7, 8, 9][len(out) % 4] if rng.random() < 0.7 else rng.randint(6, 9)
+            unit = rng.choice([1.0, 2.0, 5.0]) * 10.0 ** -e
+            t = dict(t, xyz=[[c * unit for c in q] for q in t["xyz"]], r=[v * unit for v in t["r"]])
+            out.append({"class": "sub-micron-units/" + kind, "tree": t, "levels": [1, 2, 3, 4] + ([5, 7, 9] if kind == "chain" else []),
+                        "collinear": True, "unit": unit})
         k = 0
         # general trees in which one end ball of some compartments contains the other (a thick soma with a thin first point
         # close to its centre; a zero-radius tip): levels 1 and 2 are plain sums for EVERY tree
